@@ -15,6 +15,8 @@ import Cfdm.Driver.C04
 import Cfdm.Driver.C11
 import Cfdm.Driver.C10
 import Cfdm.Driver.C12
+import Cfdm.Driver.C17
+import Cfdm.Driver.C13
 open Cfdm.Driver
 
 def step (line : String) : String :=
@@ -41,6 +43,8 @@ def step (line : String) : String :=
       | ["C11", sub] => C11.run sub kv
       | ["C10", sub] => C10.run sub kv
       | ["C12", sub] => C12.run sub kv
+      | ["C17", sub] => C17.run sub kv
+      | ["C13", sub] => C13.run sub kv
       | _ => "bad-op"
 
 partial def loop (h : IO.FS.Stream) : IO Unit := do
